@@ -12,7 +12,8 @@ RULE = ("two-layer trees under $ECONFTOOL_ROOT (a sixth of them below a root of 
 
 def content(rng, tag):
     r = rng.random()
-    if r < 0.2: return b"g1=" + tag + b"\ng2 = two words\n"
+    if r < 0.1: return b"g1=" + tag + b"\ng2 = two words\n"
+    if r < 0.2: return b"top=" + tag + b"\n[S]\nk=" + tag + b"\n[T]\nz=1\n[S]\nlater=" + tag + b"\nk2=2\n[U]\n[T]\nz2=3\n"     # sections opened twice
     if r < 0.35: return b"[S]\nk=" + tag + b"\n[E]\n[T]\nz=1\n cont\n"
     if r < 0.4: return b"only=" + tag + b"\n[broken\n"
     if r < 0.45: return rng.choice([b"only=" + tag + b"\nx=1\n[broken", b"[broken", b"a=1\n[s] junk"])       # offending line last, no newline
